@@ -1,7 +1,7 @@
 #!/bin/bash
 # run every registered quick (or thorough) check; summary line per property
 tier=${1:-quick}
-cd /verif
+cd "$(dirname "$(readlink -f "$0")")"
 for p in C01 C02 C03 C04 C05 C06 C07 C08 C09 C10 C11 C12 C13 C14 C15 C16 C17 C18 C19 C20; do
   s=$(date +%s.%N)
   out=$(./check $p --tier $tier 2>&1); rc=$?
